@@ -117,12 +117,17 @@ func runTwin(p *Plan, tree *refTree, res *simcore.Result) *history {
 		w.close()
 		return nil
 	}
+	cutShort := false
+	var seqBefore uint64
 	for i, op := range p.Ops {
+		seqBefore = w.clock.Now()
 		r, v := w.apply(op)
 		if v != nil {
 			if isKnown(v.Key) || treeFindings[v.Key] {
-				// a C38 finding of the unchanged tree: C39 judges crashes of the history up to here
+				// a C38 finding of the unchanged tree: C39 judges crashes of the history up to
+				// (not including) this operation
 				res.Probe("history-cut-short-by-C38-finding")
+				cutShort = true
 				break
 			}
 			v.Oracle = "history-" + v.Oracle
@@ -135,6 +140,9 @@ func runTwin(p *Plan, tree *refTree, res *simcore.Result) *history {
 		h.ops = append(h.ops, r)
 	}
 	h.endSeq = w.clock.Now()
+	if cutShort {
+		h.endSeq = seqBefore
+	}
 	h.kvlog = w.kv.Snapshot()
 	w.rec.Hook = nil
 	h.events = append([]simos.Event{}, w.rec.Events[:w.rec.Len()]...)
